@@ -211,6 +211,12 @@ def run(chk):
             gen = G.cls(cname)(key=key, n=8, nb=None, omega_batch_size=2, omega_border_batch_size=None, dim=2, rar_parameters=rp, n_start=3,
                                temporal_batch_size=2, tmin=K('tmin'), tmax=K('tmax'), nt=10, nt_start=5, **box)
             fam = [("p_times", "nt_start", 10, 5), ("p_omega", "n_start", 8, 3)]
+        # counters right after construction: the period counter is one short of the period (so that the first step happens at
+        # start_iter), no step has been taken
+        since, nb = gen.fields.get('rar_iter_from_last_sampling'), gen.fields.get('rar_iter_nb')
+        if lift(since) != lift(K('update_every')) - 1 or lift(nb) != 0:
+            raise Violation(f"{cname} counters", f"after construction: period counter {since}, number of steps taken {nb}",
+                            "update_every - 1 and 0")
         for mask, startf, total, start in fam:
             got_start = gen.fields[startf]
             if lift(got_start) != lift(start):
